@@ -650,6 +650,12 @@ def apply_fault(spec, f, ii, gi, si, terms_key, rnd):
             return False
         i, pos = rnd.choice(tg)
         mut.append(('ele', i, pos, Raw(VALS[cls])))
+    elif f == 'ele_far':
+        tg = [(i + 1, x[0]) for i, x in enumerate(bases()[base]['body']) if x[0] in ('HD', 'HI')]
+        if not tg:
+            return False
+        i, sid = rnd.choice(tg)
+        mut.append(('ele', i, 10, Raw('ZZ')))          # HD10 is not used; HI10-1 'ZZ' is no code list qualifier and HI10-2 is then missing
     elif f == 'ele_date':
         tg = date_targets(base)
         if not tg:
@@ -867,6 +873,14 @@ def inputs(tier, seed):
     spec = shape_spec(['834_short'], 1, 1, 1)
     apply_fault(spec, 'ge_nonnum', 0, 0, 0, 'std', rnd)
     emit('D:ge_nonnum', spec, 'std', ['ge_nonnum'])
+    # E: element errors at two-digit positions of segments with a two-letter id (reference designators such as HI10-1, HD10);
+    # appended last, with a generator of its own, so that the corpora above stay as they were
+    rnd_e = random.Random(seed * 104729 + 11)
+    for base in ('simple_837p', '834_lui_id_5010', 'simple_837i'):
+        for tk in ('std', 'alt2'):
+            spec = shape_spec([base], 1, 1, 2)
+            if apply_fault(spec, 'ele_far', 0, 0, 1, tk, rnd_e):
+                emit('E:%s:%s:ele_far@0.0.1' % (base, tk), spec, tk, ['ele_far'])
     return out
 
 
